@@ -39,7 +39,8 @@ func (cache *H264Cache) CachePack(pack Pack) bool {
 	}
 
 	// 判断是否是参数和关键帧包
-	sps, pps, islice := cache.getPalyloadType(rtppack.Payload())
+	payload := rtppack.Payload()
+	sps, pps, islice := cache.getPalyloadType(payload)
 
 	cache.l.Lock()
 	defer cache.l.Unlock()
@@ -58,7 +59,8 @@ func (cache *H264Cache) CachePack(pack Pack) bool {
 	// 不能重新开始 GOP，也不是关键帧的起点
 	if islice && cache.keyRun && cache.keyTs == rtppack.Timestamp {
 		islice = false
-	} else {
+	} else if !(cache.keyRun && cache.keyTs == rtppack.Timestamp && cache.keyFragment(payload)) {
+		// 关键帧片的后续分片（FU）不结束该关键帧
 		cache.keyRun, cache.keyTs = islice, rtppack.Timestamp
 	}
 
@@ -207,6 +209,19 @@ func (cache *H264Cache) getPalyloadType(payload []byte) (sps, pps, islice bool) 
 		cache.nalType(naluTypeInRtp, &sps, &pps, &islice)
 	}
 	return
+}
+
+// keyFragment 判断是否是关键帧片的后续分片（FU-A/FU-B 的非起始分片）
+func (cache *H264Cache) keyFragment(payload []byte) bool {
+	if len(payload) < 3 {
+		return false
+	}
+	switch payload[0] & 0x1F {
+	case h264.NalFuAInRtp, h264.NalFuBInRtp:
+		fuHeader := payload[1]
+		return (fuHeader>>7)&1 == 0 && fuHeader&0x1f == h264.NalIdrSlice
+	}
+	return false
 }
 
 func (cache *H264Cache) nalType(nalType byte, sps, pps, islice *bool) {
